@@ -113,6 +113,8 @@ class _FuncInline(SiteRewriter):
 
         self.gensym = Gensym(self.def_use.names())
         self.free_vars = set(func.free_vars)
+        # the names `func` itself binds (arguments, assignments, loop targets)
+        self.bound = self.def_use.names() - self.free_vars
         self.env = func.env.copy()
 
     def _visit_call(self, e: Call, ctx: _Ctx):
@@ -171,6 +173,13 @@ class _FuncInline(SiteRewriter):
 
         # merge free variables
         for name in ast.free_vars:
+            if name in self.bound:
+                # spliced into `func`, the callee's free variable would read
+                # the caller's own variable of that name
+                raise RuntimeError(
+                    f'cannot inline function `{e.fn.name}`: its free variable `{name}` '
+                    f'is also a variable of `{self.func.name}`'
+                )
             if str(name) in self.env:
                 # already in the environment, check that it is the same
                 val = self.env.get(str(name))
